@@ -383,6 +383,31 @@ def run(ck, tier):
                 ck.ob('R5', si.qn, 'identity[id] = value stores the caller\'s object itself', isinstance(n_.value, ast.Name) and n_.value.id == valp,
                       detail='identity-setitem-converts', loc=cx.floc(si, n_),
                       message='ModbusDeviceIdentification.__setitem__ stores `%s` instead of the value it was given' % U(n_.value)[:60])
+    up = cx.idx.find_method(ident, 'update')
+    if up is not None and len(up.params) > 1:
+        ck.saw('functions', up.qn)
+        src = up.params[1]
+        n5 += 1
+        direct = any(isinstance(c, ast.Call) and isinstance(c.func, ast.Attribute) and c.func.attr == 'update' and U(c.func.value).endswith('__data')
+                     and c.args and isinstance(c.args[0], ast.Name) and c.args[0].id == src for c in ast.walk(up.node))
+        filtered = None
+        for lp in [n_ for n_ in ast.walk(up.node) if isinstance(n_, ast.For)]:
+            vals = set()
+            if isinstance(lp.target, (ast.Tuple, ast.List)) and len(lp.target.elts) == 2 and isinstance(lp.target.elts[1], ast.Name):
+                vals.add(lp.target.elts[1].id)
+            keyn = lp.target.elts[0].id if isinstance(lp.target, (ast.Tuple, ast.List)) and isinstance(lp.target.elts[0], ast.Name) else (lp.target.id if isinstance(lp.target, ast.Name) else None)
+            for t_ in [n_.test for n_ in ast.walk(lp) if isinstance(n_, (ast.If, ast.IfExp))]:
+                names = {x.id for x in ast.walk(t_) if isinstance(x, ast.Name)}
+                subs = [x for x in ast.walk(t_) if isinstance(x, ast.Subscript) and isinstance(x.value, ast.Name) and x.value.id == src]
+                if names & vals or subs:
+                    filtered = U(t_)
+            stores = [n_ for n_ in ast.walk(lp) if isinstance(n_, ast.Assign) and any(isinstance(t, ast.Subscript) and (U(t.value).endswith('__data') or U(t.value) == 'self') for t in n_.targets)]
+            if stores and filtered is None:
+                direct = True
+        ck.ob('R5', up.qn, 'update() stores every object of the identity it is given, empty ones included', direct and filtered is None,
+              detail='identity-update-filters-values', loc=cx.floc(up),
+              message='ModbusDeviceIdentification.update %s: an object that is blanked (set to the empty string to retire it) keeps its old value, and '
+                      'Read Device Identification goes on returning it' % ('stores an object only when `%s`' % filtered if filtered else 'does not store the objects of its argument'))
     ck.floor('R5', n5, 5, 'value-producing returns of the identity factory and store')
     req = cx.idx.cls(REQ)
     rex = cx.method(req, 'execute')
